@@ -22,6 +22,9 @@ CHECKS = {
  "C06": ("exploration", "stateful PBT on the same worlds with un-notified edits and noise; invariants over the observed loader/source log vs the shadow dependency graph; reload-id / watcher accounting after every pass",
          "For every step: the reloader re-loads only assets connected (per the observed dependency graph, including failed attempts) to a notified entry, at most once per pass, never reads the source otherwise; reload ids change exactly once per successful rewrite; watchers and reloaded_global answer true exactly once per batch of rewrites; unaffected values are bit-identical.",
          "the shadow graph is derived from observed reads and look-ups with the attribution rules of C14; passes are delimited by hot_reload calls (exact counts only in that mode)", "4/C06"),
+ "C09": ("fault_enumeration", "exhaustive single-fault injection inside generated scenarios (every read index x io kind, every loader invocation x {Err, panic}, initial-load and reload phases) with containment invariants against a model interpreter; blocked-state detector for liveness",
+         "For each generated scenario a dry run counts reads and loader invocations per phase; then every single fault is executed on a fresh copy, followed by removal of the fault, retry, and a repairing edit. Cached values must be untouched or fully explained (fresh model value, possibly with the faulted file unusable, or a swallowed failure), ids move only with values, the recording token is restored, retries and later hot_reload calls succeed.",
+         "single faults; the sentinel asset of the barrier is exempt from injection; explanations of swallowed faults use the model interpreter", "4/C09"),
  "C10": ("exploration", "stateful PBT: histories on the same keys over four cache constructors with a frozen-entry model",
          "Random histories of load / load_owned / get_or_insert / remove / take / clear with notified edits, a load racing an insertion and barriers; every entry the statement declares non-reloadable must keep its creation value, ReloadId::NEVER, silent watchers and the same Handle::get() address and content.",
          "reloadable entries are observed to reload in the same histories, so the reloader is live when frozen entries are checked", "4/C10"),
